@@ -409,7 +409,7 @@ def load_known():
 def finish(res, level_text_extra=None):
     """Write evidence, print KNOWN-FINDING / VIOLATION lines, return exit code."""
     pid = res.pid
-    known = [k for k in load_known().get("known", []) if k.get("property") == pid]
+    known = [k for k in load_known().get("known", []) if pid in (k.get("properties") or [k.get("property")])]
     gate = res.gate or {"theorems": [], "discharged": [], "problems": ["gate not run"], "assumptions": {}, "checker_cmd": ""}
     # a broken proof obligation is a violation without a failing input (unless the search found one)
     for pr in gate["problems"]:
@@ -420,6 +420,7 @@ def finish(res, level_text_extra=None):
     exit_code = 0
     os.makedirs(os.path.join(VERIF, "replays"), exist_ok=True)
     seen_sig = set()
+    known_printed = set()
     for v in res.violations:
         if v["signature"] in seen_sig:
             continue
@@ -428,7 +429,9 @@ def finish(res, level_text_extra=None):
             continue
         k = next((k for k in known if k.get("signature") == v["signature"]), None)
         if k:
-            print(f"KNOWN-FINDING: property={pid} {k.get('what', v['what'])}")
+            if k["signature"] not in known_printed:
+                known_printed.add(k["signature"])
+                print(f"KNOWN-FINDING: property={pid} {k.get('what', v['what'])}")
             continue
         rp = os.path.join(VERIF, "replays", f"{pid}_{len(reported)}.json")
         with open(rp, "w") as f:
